@@ -9,6 +9,7 @@ import NetqasmVerif.Driver.Reject
 import NetqasmVerif.Driver.Msg
 import NetqasmVerif.Driver.Text
 import NetqasmVerif.Driver.Transpile
+import NetqasmVerif.Driver.Exec
 open Lean NQ.Drv
 
 def handlers : List (String → Json → Option Json) := [
@@ -22,7 +23,8 @@ def handlers : List (String → Json → Option Json) := [
   handleReject,
   handleMsg,
   handleText,
-  handleTranspile]
+  handleTranspile,
+  handleExec]
 
 def dispatch (j : Json) : Json :=
   match (jField? j "op").bind jStr? with
